@@ -149,4 +149,4 @@ pub proof fn lemma_nested_wrappers<A: Entry, B: Entry>(a: &A, b: Arc<B>)
 {
 }
 '''
-CANARY = None
+CANARY = dict(fn="Merged::write", field="impl_extra", replace=("{ self.0.items() + self.1.items() }", "{ self.1.items() + self.0.items() }"))
